@@ -462,7 +462,8 @@ class id_pairs_from_delta(FnContract):
                      lambda c, a: (a.delta_unit.name in ("degrees", "radians")) and
                      c.Or(a.delta < 0, a.delta > (180 if a.delta_unit.name == "degrees" else sym.pi_axiom())),
                      role="prop"),
-              Raises("FilterException", "no_pair_exists", _empty, role="prop"))
+              Raises("FilterException", "no_pair_exists", _empty, role="prop",
+                     call_when=lambda c, a: c.bool("no_pair_for_this_delta")))
 
     def result(self, c, a):
         m = c.int("n_pairs")
@@ -485,6 +486,9 @@ class id_pairs_from_delta(FnContract):
             sub = filter_pairs_by_angle()
         for cl in sub.post(c, ca, res):
             yield Clause("%s[%s]" % (cl.label, u), cl.cond, role=cl.role)
+
+
+id_pairs_from_delta.result = _remember(id_pairs_from_delta.name)(id_pairs_from_delta.result)
 
 
 def REG_BY_UNIT(a):
